@@ -181,7 +181,10 @@ Fixpoint fill_checks_go (fuel : nat) (s : bytes) : list (option bytes * bytes) :
 Definition fill_checks (s : bytes) : list (option bytes * bytes) := fill_checks_go (S (length s)) s.
 
 (** ** setGenExpr
-    regexp.Compile(<dq>(?:[(,]\s{0,})[<dq>`]*(NAME)[<dq>`]*[^,]*(?i:GENERATED\s+ALWAYS)*\s*(?i:AS){1}\s*\(<dq>)
+    regexp.Compile(<dq>(?:[(,]\s{0,})[<dq>`]*(NAME)[<dq>`]*\s[^,]*(?i:GENERATED\s+ALWAYS)*\s*(?i:AS){1}\s*\(<dq>)
+    (the \s after the name and its closing quotes is the fix "sqlite inspection looks for the
+    generated-column expression after the whole column name"; [match_gen_at_old] is the regexp before it,
+    which matched the name as a prefix of a longer one).
     Modelled for NAME in \w+ (otherwise the name is read as a regexp: [GenUnmodelled]).
     [^,]* is greedy: of the comma-free stretch after the name it keeps as much as
     possible, so the match ends at the LAST <dq>AS\s*(<dq> that starts in the stretch
@@ -210,6 +213,20 @@ Definition match_gen_at (name s : bytes) : option bytes :=
   | c :: r =>
       if open_ch c then
         match lit_cs name (skip_while is_quote (skip_while is_space r)) with
+        | Some r3 => match skip_while is_quote r3 with
+                     | c4 :: r4 => if is_space c4 then last_as r4 else None
+                     | [] => None
+                     end
+        | None => None
+        end
+      else None
+  | [] => None
+  end.
+Definition match_gen_at_old (name s : bytes) : option bytes :=
+  match s with
+  | c :: r =>
+      if open_ch c then
+        match lit_cs name (skip_while is_quote (skip_while is_space r)) with
         | Some r3 => last_as r3
         | None => None
         end
@@ -225,6 +242,23 @@ Inductive gen_result := GenUnmodelled | GenNotFound | GenEmpty | GenOk (e : byte
 Definition set_gen_expr (name s : bytes) : gen_result :=
   if negb (forallb is_word name) || match name with [] => true | _ => false end then GenUnmodelled
   else match find_gen name s with
+       | None => GenNotFound
+       | Some from_paren =>
+           match scan_expr from_paren with
+           | [] => GenEmpty
+           | e => GenOk e
+           end
+       end.
+
+(** the same with the regexp before the fix (for the theorem about the old code) *)
+Fixpoint find_gen_old (name s : bytes) : option bytes :=
+  match match_gen_at_old name s with
+  | Some x => Some x
+  | None => match s with [] => None | _ :: s' => find_gen_old name s' end
+  end.
+Definition set_gen_expr_old (name s : bytes) : gen_result :=
+  if negb (forallb is_word name) || match name with [] => true | _ => false end then GenUnmodelled
+  else match find_gen_old name s with
        | None => GenNotFound
        | Some from_paren =>
            match scan_expr from_paren with
